@@ -44,6 +44,8 @@ def run_jobs(check, tier, seed, jobs, tmp, timeout):
             cmd = [py, "-X", "faulthandler", "-m", "olverif.worker", "run", check, tier, str(seed),
                    str(job["shard"]), str(job["nshards"]), outfile, json.dumps(job.get("args", {}))]
             env = envs.worker_env(job.get("env"), hashseed=str(job.get("hashseed", "0")))
+            env["OLVERIF_MARKER"] = os.path.join(tmp, "m%d.txt" % idx)
+            env["OLVERIF_SKIP"] = json.dumps(job.get("_skip", []))
             errf = open(os.path.join(tmp, "e%d.txt" % idx), "w+")
             p = subprocess.Popen(cmd, stdout=errf, stderr=subprocess.STDOUT, env=env, cwd=tmp)
             running.append((p, job, outfile, errf, time.time()))
@@ -69,6 +71,17 @@ def run_jobs(check, tier, seed, jobs, tmp, timeout):
             else:
                 errf.seek(0)
                 err = "worker-died rc=%s: %s" % (rc, errf.read()[-1500:])
+                # the interpreter itself died (signal): rerun the shard without the case that was in flight
+                marker = os.path.join(tmp, "m%d.txt" % jobs.index(job))
+                if rc is not None and rc < 0 and os.path.exists(marker) and len(job.get("_skip", [])) < 8:
+                    key = open(marker).read().strip()
+                    if key and key not in job.get("_skip", []):
+                        job.setdefault("_skip", []).append(key)
+                        job.setdefault("_died_on", []).append(key)
+                        os.unlink(marker)
+                        errf.close()
+                        pending.append((jobs.index(job), job))
+                        continue
             errf.close()
             done.append((job, res, err))
         running = still
@@ -93,6 +106,9 @@ def merge(results):
         if res.get("status") == "crashed":
             m["crashes"].append({"job": job, "error": res.get("crash")})
             m["inconclusive"]["worker-crash"] = m["inconclusive"].get("worker-crash", 0) + 1
+        if job.get("_died_on"):
+            m["inconclusive"]["interpreter-died-on-a-case (shard rerun without it)"] = m["inconclusive"].get(
+                "interpreter-died-on-a-case (shard rerun without it)", 0) + len(job["_died_on"])
         m["evaluations"] += res["evaluations"]
         m["held"] += res["held"]
         m["nontrivial"].update(res["nontrivial"])
